@@ -420,4 +420,68 @@ theorem lo_step {c : Cfg} {s s' : State} {a : Nat} (M : Main s) (h : UStep c s s
   | rNext _ hp => have T := M.tinv a; rw [hp] at T; exact absurd T (by simp [TInv])
   | _ => exact old
 
+theorem closedst_step {c : Cfg} {s s' : State} {a : Nat} (M : Main s) (h : UStep c s s' a)
+    (hk : s.clearing = false) (hk' : s'.clearing = false) :
+    s'.closed = true → stOf s' s'.next = stClosed ∨ ∃ w, (s'.pc w).willClose := by
+  have T := M.tinv a
+  -- the generic case: `next` and `closed` unchanged, the actor is not a closer about to store
+  have keep : s'.next = s.next → s'.closed = s.closed → ((s.pc a).willClose → False) →
+      s'.closed = true → stOf s' s'.next = stClosed ∨ ∃ w, (s'.pc w).willClose := by
+    intro hn hc hact hcl
+    rw [hc] at hcl
+    rcases M.closedst hcl with q | ⟨w, q⟩
+    · left; rw [hn, stNZ_step M h hk hk' _ (by rw [q]; exact stC_ne)]; exact q
+    · right
+      by_cases hwa : w = a
+      · subst hwa; exact absurd q hact
+      · refine ⟨w, ?_⟩
+        rcases pc_other M h w hwa with e | ⟨b, e, j, h1, h2⟩
+        · rw [e]; exact q
+        · rw [h1] at q; exact absurd q (by simp [Pc.willClose])
+  cases h with
+  | pAdd _ n hp =>
+    intro hcl; rw [hp] at T; have : s.closed = false := T; rw [this] at hcl; cases hcl
+  | pFill _ b e vals hp hl => exact keep rfl rfl (fun q => by rw [hp] at q; exact q)
+  | pRel _ b pe e hp => exact keep rfl rfl (fun q => by rw [hp] at q; exact q)
+  | wSt _ sv b pe e j hp =>
+    rw [hp] at T
+    obtain ⟨⟨w1, w2, w3, w4, w5, w6, w7⟩, w8⟩ := T
+    rcases w7 with ⟨a1, -⟩ | ⟨a1, a2, a3, a4, a5⟩
+    · exact keep rfl rfl (fun q => by rw [hp] at q; have q' : sv = stClosed := q; rw [a1] at q'; exact absurd q' (by decide))
+    · intro _
+      left
+      have hj : j = s.next := by omega
+      show status (upd s.word j (store16 (s.word j) sv) s.next) = stClosed
+      rw [← hj, upd_same, status_store16 _ _ (by rw [a1]; decide)]; exact a1
+  | wSc _ sv b pe e hp => exact keep rfl rfl (fun q => by rw [hp] at q; exact q)
+  | wLd _ sv b pe e j hp => exact keep rfl rfl (fun q => by rw [hp] at q; exact q)
+  | wCasOk _ sv b pe e j v hp hv => exact keep rfl rfl (fun q => by rw [hp] at q; exact q)
+  | wCasFail _ sv b pe e j v hp => exact keep rfl rfl (fun q => by rw [hp] at q; exact q)
+  | wWake _ sv b pe e j hp => exact keep rfl rfl (fun q => by rw [hp] at q; exact q)
+  | cLd _ hp =>
+    intro _; exact Or.inr ⟨a, by show (upd s.pc a _ a).willClose; rw [upd_same]; rfl⟩
+  | kClosed _ b e j hp => exact keep rfl rfl (fun q => by rw [hp] at q; exact q)
+  | kPub _ b e j hp => exact keep rfl rfl (fun q => by rw [hp] at q; exact q)
+  | kWait _ b e j hp => exact keep rfl rfl (fun q => by rw [hp] at q; exact q)
+  | kCasOk _ b e j v hp hv => exact keep rfl rfl (fun q => by rw [hp] at q; exact q)
+  | kCasFail _ b e j v hp => exact keep rfl rfl (fun q => by rw [hp] at q; exact q)
+  | kFwaitSleep _ b e j v hp hv => exact keep rfl rfl (fun q => by rw [hp] at q; exact q)
+  | kFwaitAgain _ b e j v hp hv => exact keep rfl rfl (fun q => by rw [hp] at q; exact q)
+  | kWoke _ b e j hp => exact keep rfl rfl (fun q => by rw [hp] at q; exact q)
+  | kReload _ b e j hp => exact keep rfl rfl (fun q => by rw [hp] at q; exact q)
+  | kAcq _ b e m hp => exact keep rfl rfl (fun q => by rw [hp] at q; exact q)
+  | rSt _ j hp =>
+    rw [hp] at T; exact absurd T (by simp [TInv])
+  | rNext _ hp =>
+    rw [hp] at T; exact absurd T (by simp [TInv])
+  | publish _ n hp hc hkk => exact keep rfl rfl (fun q => by rw [hp] at q; exact q)
+  | close _ hp hkk hq =>
+    intro _; exact Or.inr ⟨a, by show (upd s.pc a .cLd a).willClose; rw [upd_same]; trivial⟩
+  | consume _ n hp hkk => exact keep rfl rfl (fun q => by rw [hp] at q; exact q)
+  | subscribe _ hp hkk => exact keep rfl rfl (fun q => by rw [hp] at q; exact q)
+  | ret _ b e m hp => exact keep rfl rfl (fun q => by rw [hp] at q; exact q)
+  | clear _ hkk hq =>
+    cases hk'
+  | spuriousWake _ b e j hp => exact keep rfl rfl (fun q => by rw [hp] at q; exact q)
+
 end Babylon.Topic
